@@ -219,9 +219,55 @@ def conditional(c: int, kind: int, nest: int) -> bool:
         raise
 
 
+_T = {"log": []}
+
+
+def _tst(x, y):
+    _T["log"].append(x)
+    return y
+
+
+K['tst'] = _tst
+
+
+def cond_chain(c1: int, c2: int, c3: int, form: int) -> bool:
+    """
+    pre: 0 <= form <= 2
+    post: _
+    """
+    # a chain  :[t1;b1:|t2;b2:|t3;b3;b4]  selects the branch of the FIRST true test, evaluates the tests in order and only up to
+    # that one, and evaluates no other branch; tests and branches are observable (they log)
+    enter()
+    try:
+        _reset()
+        K['c1'] = c1; K['c2'] = c2; K['c3'] = c3
+        _B["n"] = 0; _B["fail_at"] = -1; _B["log"] = []; _T["log"] = []
+        if form == 0:
+            got = K(':[tst(1;c1);boom(1):|tst(2;c2);boom(2):|tst(3;c3);boom(3);boom(4)]')
+            tests = [c1, c2, c3]
+        elif form == 1:
+            got = K('{:[tst(1;x);boom(1):|tst(2;y);boom(2):|tst(3;z);boom(3);boom(4)]}(c1;c2;c3)')
+            tests = [c1, c2, c3]
+        else:
+            got = K(':[tst(1;c1);boom(1):|tst(2;c2);boom(2);boom(4)]')
+            tests = [c1, c2]
+        want = 4; seen = []
+        for i, c in enumerate(tests):
+            seen.append(i + 1)
+            if c != 0:
+                want = i + 1
+                break
+        return verdict(W.canon(got) == ("i", want) and _B["log"] == [want] and _T["log"] == seen)
+    except Exception as e:
+        if type(e).__name__ == "OutsideModel":
+            cut(str(e)[:60]); return True
+        raise
+
+
 def bounds(tier):
     return {"bodies": [b[0] for b in BODIES], "call forms": {"triad": FORMS3, "dyad": FORMS2, "monad": FORMS1},
             "arguments": "unbounded symbolic integers", "failure ordinal": "0 (never) .. 6", "failing programs": [p[1] for p in FAIL_PROGS],
+            "conditional chains": "two and three tests joined with :| (top level and inside a function), any integers as test values",
             "condition values": "any integer, [], \"\", [c 1], \"a\", [0], :foo, 0.0, 0.5; plain, :| chain and nested conditionals"}
 
 
@@ -234,4 +280,5 @@ def obligations(tier):
     for pi in range(len(FAIL_PROGS)):
         obs.append({"name": "failure part-way %s" % FAIL_PROGS[pi][1], "fn": "failing", "cfg": {"pi": pi}, "timeout": 300 if q else 900})
     obs.append({"name": "conditional truth", "fn": "conditional", "cfg": {}, "timeout": 200})
+    obs.append({"name": "conditional chain :| (first true test wins, tests in order, one branch)", "fn": "cond_chain", "cfg": {}, "timeout": 200})
     return obs
